@@ -674,7 +674,7 @@ func checkC07(run *mon.Run, rng *mon.Rand, thorough bool) {
 				run.Distinct(fmt.Sprintf("fuzz/%d/%02x/%s", pos, mk, o))
 			}
 		}
-		for i := 0; i < pick(thorough, 200, 20000); i++ {
+		for i := 0; i < pick(thorough, 200, 150000); i++ {
 			m := *seed.msg
 			m.Data = rng.Bytes(1 + rng.Intn(600))
 			if rng.Bool() { // truncated / extended valid bytes
